@@ -150,7 +150,7 @@ var checks = []Check{
 			{Pkg: "proc/redis", Scenarios: []string{"C02/stack-race"}, Race: true, Shards: 1, QuickS: 120, ThoroughS: 600},
 			{Pkg: "proc/redis", Scenarios: []string{"C02/split-race"}, Race: true, Shards: 1, QuickS: 60, ThoroughS: 300},
 			{Pkg: "proc/redis", Scenarios: []string{"C01/schedules"}, Shards: 16, QuickS: 70, ThoroughS: 600},
-			{Pkg: "proc/redis", Scenarios: []string{"C01/two-conns", "C01/backend-fifo", "C01/long-pipeline", "C01/odd-names"}, Shards: 16, QuickS: 60, ThoroughS: 600},
+			{Pkg: "proc/redis", Scenarios: []string{"C01/two-conns", "C01/backend-fifo", "C01/long-pipeline", "C01/odd-names", "C01/cold-start"}, Shards: 16, QuickS: 60, ThoroughS: 600},
 		},
 	},
 	{
@@ -213,6 +213,7 @@ var checks = []Check{
 			{Pkg: "proc/redis", Scenarios: []string{"C02/stack-race"}, Race: true, Shards: 1, QuickS: 120, ThoroughS: 600},
 			{Pkg: "proc/redis", Scenarios: []string{"C03/values"}, Shards: 16, QuickS: 60, ThoroughS: 300},
 			{Pkg: "proc/redis", Scenarios: []string{"C03/refresh-concurrent"}, Shards: 16, QuickS: 60, ThoroughS: 600},
+			{Pkg: "proc/redis", Scenarios: []string{"C01/cold-start"}, Shards: 16, QuickS: 60, ThoroughS: 600},
 		},
 	},
 	{
